@@ -393,7 +393,9 @@ class Sched:
 
     def teardown(self):
         """Called by the main thread at the end of the body (or after Abort): unwind every thread."""
-        self.leaked = [(t.name, str(t.blocked_on)) for t in self.live_threads()]
+        # no memory addresses in observations: they differ between runs
+        self.leaked = [(t.name, str(t.blocked_on[0] if isinstance(t.blocked_on, tuple) else t.blocked_on))
+                       for t in self.live_threads()]
         self.aborting = True
         for t in self.threads:
             if t is self.main or not t.started:
